@@ -236,7 +236,9 @@ impl Store {
             Entry::Condvar(entry) => entry.last_dependent_access(),
             Entry::Notify(entry) => entry.last_dependent_access(),
             Entry::RwLock(entry) => entry.last_dependent_access(),
-            Entry::Channel(entry) => entry.last_dependent_access(operation.action.into()),
+            Entry::Channel(entry) => {
+                return entry.last_dependent_accesses(operation.action.into());
+            }
             obj => panic!(
                 "object is not branchable {:?}; ref = {:?}",
                 obj, operation.obj
